@@ -30,9 +30,15 @@ def _has_sym(x):
         if isinstance(x, pd.Series):
             x = x.values
         if isinstance(x, np.ndarray) and x.dtype == object:
-            for v in x.ravel()[:4]:
+            seen = 0
+            for v in x.ravel():
                 if isinstance(v, (symx.Sym, symx.SymB)):
                     return True
+                if v is None or (isinstance(v, float) and v != v):
+                    continue  # missing cells say nothing about the column
+                seen += 1
+                if seen >= 4:
+                    break
     except Exception:  # noqa
         pass
     return False
